@@ -1168,6 +1168,7 @@ func init() {
 	}
 	// reg("R20.41", "C20") // armed with the fix commits
 	// reg("R11.27", "C11")
+	_ = reg
 }
 
 func ruleDeclaredGuards(r *Run) {
